@@ -56,6 +56,8 @@ class PolicyModel:
                 cat, scheme, key = None, None, parts[0]
             elif len(parts) == 2:
                 cat, scheme, key = None, parts[0], parts[1]
+                if scheme == "all":
+                    scheme = None  # the deprecated 'all' pseudo-scheme: same slot as the bare context-wide spelling
             else:
                 cat, scheme, key = parts
                 if scheme == "context":
